@@ -76,7 +76,7 @@ for nm, memb in (("degree", lambda c, S, n: c.union(sel(S.Nin, n), sel(S.Nout, n
     s.req("unweighted", lambda c, A: A.weight.term == c.NONE, PROPS)
     s.req("order-int-or-none", lambda c, A: z3.Or(A.order.term == c.NONE, c.is_int(A.order.term)), PROPS)
     s.req("DInv", lambda c, A: DInv(c, A.snap0["net"]), PROPS)
-    s.timeout_ms = 90000  # equality of two filtered-union lambdas under card: ~15 s idle
+    # (no special budget: the ground-hypotheses attempt of the portfolio decides the definition in well under a second)
 
 for nm, f in (("size", lambda c, A, S, e: _dsize(c, S, e)), ("order", lambda c, A, S, e: _dsize(c, S, e) - 1),
               ("tail_size", lambda c, A, S, e: c.card(sel(S.Ein, e))), ("tail_order", lambda c, A, S, e: c.card(sel(S.Ein, e)) - 1),
